@@ -212,7 +212,7 @@ def _shapes_c01_2(tier):
                 "message length enumerated; version and CBC mode picked by "
                 "symbolic selectors"],
             patches=lambda s: (conn_proxies(), []), max_paths=20000,
-            also=("C16",))
+            also=("C16", "C14"))
 def c01_2(I, shape):
     """fragments concatenate to the message, none exceeds min(user limit,
     negotiated limit), all but the last are full, no empty fragment is added,
